@@ -88,6 +88,7 @@ type fmCfg struct {
 	Bgw     string   `json:"bgw"`
 	MaxGas  string   `json:"maxGas"`
 	Params  fmParams `json:"params"`
+	Abci    bool     `json:"abci,omitempty"` // blocks through the application's ABCI interface (feemarket_abci.go)
 }
 
 type fmStep struct {
@@ -183,6 +184,12 @@ type fmEnv struct {
 	phase     string
 	height    int64
 	blkMaxGas string
+	// ABCI-level sequences (feemarket_abci.go)
+	abci       bool
+	hdr        tmproto.Header
+	used       uint64 // gas used the DeliverTx responses of the running block report
+	key, other Key
+	evmChainID uint64
 }
 
 // fmGenesis is the genesis app.Setup builds (default module genesis, one bonded validator, one
@@ -366,6 +373,9 @@ func fmArgStr(a M, k string) string {
 // step executes one abstract action on the real code; returns ok, err and whether the
 // scenario must stop (a panicking BeginBlock halts the chain).
 func (f *fmEnv) step(st *fmStep) (ok bool, errs string, halt bool) {
+	if f.abci {
+		return f.stepAbci(st)
+	}
 	k := &f.app.FeeMarketKeeper
 	switch st.Ev {
 	case "begin_block":
@@ -867,6 +877,7 @@ func feemarketMain(args []string) error {
 	random := fs.Int("random", 0, "number of random block sequences")
 	blocks := fs.Int("blocks", 8, "blocks per random sequence")
 	nodeOps := fs.Int("node-ops", 250, "random sequences: per mille of block boundaries with a node operation (restart, reinit, export_import)")
+	nabci := fs.Int("abci", 0, "number of random block sequences at the ABCI level (real transactions of every kind through DeliverTx)")
 	randCalc := fs.Int("random-calc", 0, "number of random calc rows")
 	seed := fs.Int64("seed", 1, "seed")
 	out := fs.String("out", "trace.ndjson", "trace output")
@@ -941,14 +952,19 @@ func feemarketMain(args []string) error {
 	nseq := 0
 	var seq *fmEnv
 	runSeq := func(src string, cfg fmCfg, drive func(f *fmEnv, emit func(st fmStep) bool)) {
-		if seq == nil {
-			seq = fmNewEnv()
+		var f *fmEnv
+		if cfg.Abci {
+			f = fmNewAbciEnv(cfg) // a fresh application, initialised from the sequence's genesis
+		} else {
+			if seq == nil {
+				seq = fmNewEnv()
+			}
+			f = seq
+			if f.phase != "idle" { // a halted or unfinished scenario left a block open: drop its branch
+				f.phase = "idle"
+			}
+			f.reset(cfg)
 		}
-		f := seq
-		if f.phase != "idle" { // a halted or unfinished scenario left a block open: drop its branch
-			f.phase = "idle"
-		}
-		f.reset(cfg)
 		scn++
 		nseq++
 		tw.Emit(M{"ev": "reset", "scn": scn, "src": src, "cfg": cfg, "post": f.project()})
@@ -982,6 +998,10 @@ func feemarketMain(args []string) error {
 			cfg.Bgw = fmt.Sprint(r.Int63n(60000000))
 		}
 		runSeq("random", cfg, func(f *fmEnv, emit func(st fmStep) bool) { f.randomScenario(r, *blocks, *nodeOps, emit) })
+	}
+	for i := 0; i < *nabci; i++ {
+		r := rand.New(rand.NewSource(*seed*1000033 + int64(i)))
+		runSeq("random-abci", fmaRandCfg(r), func(f *fmEnv, emit func(st fmStep) bool) { f.randomAbci(r, *blocks, *nodeOps, emit) })
 	}
 	fmt.Printf("feemarket: scenarios=%d lines=%d calc_rows=%d calc_evaluations=%d sequences=%d\n", scn, tw.N, ncalc, nevals, nseq)
 	return nil
